@@ -246,7 +246,7 @@ func compileClass(s string) string {
 }
 
 func pinnedC01() []*pgen.Case {
-	return []*pgen.Case{pgen.PinnedPkgShadow("pin_pkg_shadow"), pgen.PinnedHelperRedeclared("pin_helper_redeclared"), pinnedNonComparable("pin_update_noncomparable"), pinnedGlobalFile("pin_global_file"),
+	return []*pgen.Case{pgen.PinnedPkgShadow("pin_pkg_shadow"), pgen.PinnedHelperRedeclared("pin_helper_redeclared"), pgen.PinnedHelperRedeclaredSpelled("pin_helper_redeclared_sp0", 0), pgen.PinnedHelperRedeclaredSpelled("pin_helper_redeclared_sp1", 1), pgen.PinnedHelperRedeclaredSpelled("pin_helper_redeclared_sp2", 2), pinnedNonComparable("pin_update_noncomparable"), pinnedGlobalFile("pin_global_file"),
 		pinnedVarsElsewhere("pin_vars_elsewhere", "../gen/out.go", "vcase/pin_vars_elsewhere/gen"),
 		pinnedVarsElsewhere("pin_vars_elsewhere_named", "./sub/out.go", "vcase/pin_vars_elsewhere_named/p/sub:other"),
 		pinnedHelperNameClash("pin_helper_clash_func", "// goverter:output:format function\n// goverter:output:file ./p.gen.go\n", false),
